@@ -231,6 +231,8 @@ package multiplex
 //@ guardedby Stream.writingM: Stream.writingFrame
 //@ guardedby Session.streamsM: Session.streams
 //@ lockinv Session.streamsM: self.streams != nil
+// every live entry of the stream table belongs to this session and has its receive buffer
+//@ lockinv Session.streamsM: streamsOK: forall k uint32 :: mapHas(self.streams, k) && self.streams[k] != nil ==> self.streams[k].session == self && self.streams[k].recvBuf != nil
 //@ shared Stream.closed flag
 //@ shared Session.closed flag
 //@ shared switchboard.broken flag
@@ -328,7 +330,7 @@ package multiplex
 //@ func (recvBuffer).Close
 //@   flag trusted
 //@   modifies *
-//@   preserves Frame.StreamID, Frame.Seq, Frame.Closing, Frame.Payload, Stream.id, Stream.session, Stream.recvBuf, Session.sb, SessionConfig.MsgOnWireSizeLimit, Session.maxStreamUnitWrite, Session.streamSendBufferSize, SessionConfig.Unordered, SessionConfig.Valve, SessionConfig.Singleplex, Obfuscator.payloadCipher, switchboard.session, switchboard.valve, heap(B_Slice), Session.streams
+//@   preserves Frame.StreamID, Frame.Seq, Frame.Closing, Frame.Payload, Stream.id, Stream.session, Stream.recvBuf, Session.sb, SessionConfig.MsgOnWireSizeLimit, Session.maxStreamUnitWrite, Session.streamSendBufferSize, SessionConfig.Unordered, SessionConfig.Valve, SessionConfig.Singleplex, Obfuscator.payloadCipher, switchboard.session, switchboard.valve, heap(B_Slice), Session.streams, heap(MD_Int_Pmultiplex.Stream), heap(MV_Int_Pmultiplex.Stream)
 //@ func (recvBuffer).Write
 //@   flag trusted
 //@   modifies *
@@ -518,15 +520,53 @@ package multiplex
 // Receive path (C11 "dropped without effect, later frames still processed"; C12 teardown on read error)
 // ---------------------------------------------------------------------------------------------
 //@ define SKEEP Frame.StreamID, Frame.Seq, Frame.Closing, Frame.Payload, Stream.id, Stream.session, Stream.recvBuf, Session.sb, SessionConfig.MsgOnWireSizeLimit, Session.maxStreamUnitWrite, Session.streamSendBufferSize, SessionConfig.Unordered, SessionConfig.Valve, SessionConfig.Singleplex, Obfuscator.payloadCipher, switchboard.session, switchboard.valve, heap(B_Slice)
+// the same without the frame templates of streams (a close rewrites the closing stream's template)
+//@ define PKEEP Frame.StreamID, Stream.id, Stream.session, Stream.recvBuf, Session.sb, SessionConfig.MsgOnWireSizeLimit, Session.maxStreamUnitWrite, Session.streamSendBufferSize, SessionConfig.Unordered, SessionConfig.Valve, SessionConfig.Singleplex, Obfuscator.payloadCipher, switchboard.session, switchboard.valve, heap(B_Slice)
+// constructors: a new pipe has its condition variable (with its own mutex) and an empty buffer, is open
+// and has no deadline; a new stream buffer expects sequence number 0 first and has nothing parked; a new
+// stream is open, carries the id it was made for in every frame it will send, starts at sequence number
+// 0, and gets the receive buffer of the session's mode (datagram pipe if unordered, sorting buffer if not).
+//@ func NewStreamBufferedPipe
+//@   ensures fresh(ret0) && ret0.rwCond != nil && ret0.rwCond.L != nil && ret0.buf != nil && !ret0.closed && buflen(ret0.buf) == 0
+//@ func NewDatagramBufferedPipe
+//@   ensures fresh(ret0) && ret0.rwCond != nil && ret0.rwCond.L != nil && ret0.buf != nil && !ret0.closed && buflen(ret0.buf) == 0 && len(ret0.pLens) == 0
+//@ func NewStreamBuffer
+//@   ensures fresh(ret0) && ret0.buf != nil && ret0.buf.rwCond != nil && ret0.nextRecvSeq == 0 && len(ret0.sh) == 0
 //@ func makeStream
-//@   flag trusted
 //@   requires sesh != nil
 //@   ensures fresh(ret0) && ret0.id == id && ret0.session == sesh && ret0.recvBuf != nil && ret0.closed == 0
+//@   ensures firstFrame: ret0.writingFrame.StreamID == id && ret0.writingFrame.Seq == 0 && ret0.writingFrame.Closing == closingNothing
+//@   ensures bufferOfTheMode: sesh.Unordered ==> typeIs[*datagramBufferedPipe](ret0.recvBuf)
+//@   ensures bufferOfTheModeOrdered: !sesh.Unordered ==> typeIs[*streamBuffer](ret0.recvBuf)
+// the sorting buffer's reader side is its byte pipe: Read passes the pipe's answer through unchanged
+// (EOF only when closed and drained, see the pipe); Close closes the pipe, under recvM so that it cannot
+// interleave with a Write that is handing frames over; SetReadDeadline goes to the pipe.
+//@ func (*streamBuffer).Read
+//@   requires sb != nil && sb.buf != nil && sb.buf.rwCond != nil && !held(sb.buf.rwCond.L) && locksBelow(sb.buf.rwCond.L)
+//@   ensures passesThePipesAnswer: calls("(*streamBufferedPipe).Read") == 1 && ret0 == lastretOf[int]("(*streamBufferedPipe).Read")
+//@   ensures eofOnlyWhenClosedAndEmpty: ret1 == io.EOF ==> ret0 == 0 && sb.buf.closed && buflen(sb.buf.buf) == 0
+//@   flag noframe
+//@ func (*streamBuffer).Close
+//@   requires sb != nil && sb.buf != nil && sb.buf.rwCond != nil && !held(sb.recvM) && locksBelow(sb.recvM)
+//@   atcall Close requires underRecvM: heldx(sb.recvM)
+//@   ensures pipeClosed: called("(*streamBufferedPipe).Close")
+//@   ensures locks: holdsAsAtEntry()
+//@   flag noframe
+//@ func (*streamBuffer).SetReadDeadline
+//@   requires sb != nil && sb.buf != nil && sb.buf.rwCond != nil && !held(sb.buf.rwCond.L) && locksBelow(sb.buf.rwCond.L)
+//@   ensures handedToThePipe: called("(*streamBufferedPipe).SetReadDeadline")
+//@   flag noframe
+// recvFrame (C03): the frame goes to the receive buffer; the stream is closed (passively: nothing is
+// sent back) exactly when the buffer reports that the closing frame's turn has come; a repeated closing
+// is not an error.
 //@ func (*Stream).recvFrame
-//@   flag trusted
-//@   requires s != nil && frame != nil
+//@   requires s != nil && frame != nil && s.recvBuf != nil && s.session != nil && seshOK(s.session) && s.session.sb.session != nil && s.session.sb.valve != nil
+//@   requires order: locksBelow(s.session.streamsM)
+//@   atcall passiveClose requires onlyWhenItsTurnHasCome: toBeClosed
+//@   ensures deliveredOnce: calls("(recvBuffer).Write") == 1
+//@   ensures sendsNothing: s.writingFrame.Seq == old(s.writingFrame.Seq)
 //@   modifies *
-//@   preserves $SKEEP
+//@   preserves $PKEEP
 //@ func (Valve).rxWait
 //@   flag trusted
 //@ func (Valve).AddRx
@@ -539,17 +579,17 @@ package multiplex
 // recvDataFromRemote: a message that does not decode is answered with an error and NOTHING else happens:
 // no stream is looked up or created, no frame is delivered, the session is not closed.
 //@ func (*Session).recvDataFromRemote
-//@   requires sesh != nil && cipherOK(&sesh.Obfuscator) && sesh.sb != nil && holdsNone() && arrayOf(data) != arrayOf(sesh.sessionKey)
+//@   requires closable(sesh) && holdsNone() && arrayOf(data) != arrayOf(sesh.sessionKey)
 //@   ensures droppedWithoutEffect: !succeeded("(*Obfuscator).deobfuscate") ==> ret0 != nil && !called("(*Stream).recvFrame") && !called("(*Session).passiveClose") && !called("(*Session).SetTerminalMsg") && !called("makeStream")
 //@   ensures closingOnlyIfDecoded: called("(*Session).passiveClose") ==> succeeded("(*Obfuscator).deobfuscate")
 //@   ensures locks: holdsNone()
 //@   modifies *
-//@   preserves $SKEEP
+//@   preserves $PKEEP
 
 // deplex: the receive loop of one connection ends only after a failed Read (and then tears the session
 // down); an undecodable or rejected message never ends it.
 //@ func (*switchboard).deplex
-//@   requires sb != nil && sb.session != nil && sb.valve != nil && conn != nil && holdsNone() && cipherOK(&sb.session.Obfuscator) && sb.session.sb != nil && sb.session.connReceiveBufferSize >= 0
+//@   requires sb != nil && closable(sb.session) && sb.valve != nil && conn != nil && holdsNone() && sb.session.connReceiveBufferSize >= 0
 //@   ensures endsOnlyOnReadError: called("(*Session).passiveClose") && closedconn(conn)
 //@   # C19: what is received is paced and counted on the UPLOAD (rx) side, for the number of bytes read
 //@   atcall rxWait requires whatWasRead: arg0.(int) == n
@@ -558,7 +598,7 @@ package multiplex
 //@   atcall AddTx requires receivePathNeverUsesTx: false
 //@   loop 0 step pacedEveryRead: calls("(Valve).rxWait") == old(calls("(Valve).rxWait")) + 1 && calls("(Valve).AddRx") == old(calls("(Valve).AddRx")) + 1
 //@   flag noframe
-//@   loop 0 invariant live: holdsNone() && sb.session != nil && sb.valve != nil && cipherOK(&sb.session.Obfuscator) && sb.session.sb != nil && len(buf) == old(sb.session.connReceiveBufferSize) && fresh(buf)
+//@   loop 0 invariant live: holdsNone() && closable(sb.session) && sb.valve != nil && len(buf) == old(sb.session.connReceiveBufferSize) && fresh(buf)
 
 // ---------------------------------------------------------------------------------------------
 // C02: reassembly. The frames of one stream are a fixed family: frame s has payload fpay(s, .) of
@@ -746,6 +786,7 @@ package multiplex
 //@   modifies *
 //@   preserves $SKEEP
 //@   loop 0 invariant lk: holdsEntryPlus(sesh.streamsM) && sesh != nil && sesh.streams != nil
+//@   loop 0 invariant table: forall k uint32 :: mapHas(sesh.streams, k) && sesh.streams[k] != nil ==> sesh.streams[k].session == sesh && sesh.streams[k].recvBuf != nil
 //@   loop 0 step countedOutWhenClosed: calls("(*Session).streamCountDecr") - old(calls("(*Session).streamCountDecr")) == calls("(recvBuffer).Close") - old(calls("(recvBuffer).Close"))
 
 // closeAll closes every pooled connection (sync.Map.Range with a callback: assumed)
